@@ -1,6 +1,7 @@
 import OnetVerif.Model.Util
 import OnetVerif.Model.C01Send
 import OnetVerif.Model.C01Inst
+import OnetVerif.Model.C01Net
 /-! Model for property C01: the receiving side of one server for one tree id — arrival of
 protocol messages, parking while the tree is unknown, the tree request, the tree store entry
 and the flushes of the parked messages.  One thread step per region between two hook points of
@@ -125,6 +126,7 @@ namespace Drv
 structure State where
   trees : List (Nat × St) := []
   inst : Inst.St := {}
+  net : Net.St := {}
 
 def init : State := {}
 def get (s : State) (t : Nat) : St := (s.trees.lookup t).getD {}
@@ -156,10 +158,56 @@ def drain (x : St) : St :=
     | some t => if t.pc = .lookup then stepTh acc i t else acc
     | none => acc) x
 
+/-- every `Send` call runs to its end, then the pending listener callbacks, then the receptions -/
+def netDrain (x : Net.St) : Net.St :=
+  let x := (List.range x.thr.length).foldl (fun acc i => Net.run acc [.thread i, .thread i, .thread i, .thread i]) x
+  let x := (List.range x.dialed.length).foldl (fun acc _ => Net.run acc [.accept 0]) x
+  (List.range x.wire.length).foldl (fun acc _ => Net.run acc [.recv 0]) x
+
+/-- what was dispatched since `n0`, sorted, and the sizes of the two tables of the pair -/
+def netObs (x : Net.St) (n0 a b : Nat) : String :=
+  let d := (x.dispatched.drop n0).map fun (s, f, v) => s!"{s}:{f}:{v}"
+  let d := (d.toArray.qsort (· < ·)).toList
+  s!"disp={if d.isEmpty then "-" else ",".intercalate d} t={(x.table a b).length}/{(x.table b a).length}"
+
+/-- the router class: `nstart <n> <tcp>`; `nsend <a> <b> <v>` (one `Send`, run to the end); `nrace <a> <b> <v> <w>`
+(two concurrent `Send`s of a to b: both look the connection up before either registers one); `nopen <a> <b> <v> <w>`
+(a sends to b while b sends to a, both look up first) -/
+def nstep (s : State) (toks : List String) : Option (State × String) :=
+  match toks with
+  | ["nstart", _, _] => some ({ s with net := {} }, "ok")
+  | ["nsend", a, b, v] =>
+    match a.toNat?, b.toNat?, v.toNat? with
+    | some a, some b, some v =>
+      let n0 := s.net.dispatched.length
+      let x := netDrain (Net.run s.net [.send a b v])
+      some ({ s with net := x }, netObs x n0 a b)
+    | _, _, _ => some (s, "bad-op")
+  | ["nrace", a, b, v, w] =>
+    match a.toNat?, b.toNat?, v.toNat?, w.toNat? with
+    | some a, some b, some v, some w =>
+      let n0 := s.net.dispatched.length
+      let i := s.net.thr.length
+      let x := netDrain (Net.run s.net [.send a b v, .send a b w, .thread i, .thread (i + 1)])
+      some ({ s with net := x }, netObs x n0 a b)
+    | _, _, _, _ => some (s, "bad-op")
+  | ["nopen", a, b, v, w] =>
+    match a.toNat?, b.toNat?, v.toNat?, w.toNat? with
+    | some a, some b, some v, some w =>
+      let n0 := s.net.dispatched.length
+      let i := s.net.thr.length
+      let x := netDrain (Net.run s.net [.send a b v, .send b a w, .thread i, .thread (i + 1)])
+      some ({ s with net := x }, netObs x n0 a b)
+    | _, _, _, _ => some (s, "bad-op")
+  | _ => none
+
 /-- ops: `arrive <tree> <m>` (the thread runs to its first hook point), `thread <tree> <m>` (the
 thread carrying message m advances to its next hook point), `respond <tree>`, `localset <tree>`,
 `flush <tree>`.  Disabled ops answer `disabled`. -/
 def step (s : State) (toks : List String) : State × String :=
+  match nstep s toks with
+  | some r => r
+  | none =>
   match toks with
   | ["arrive", t, m] =>
     match t.toNat?, m.toNat? with
